@@ -363,6 +363,25 @@ def systematic(thorough=False):
                      "commonStructs": sys_commons,
                      "fields": [dict(anchor)] + holders + [{"name": "Next", "type": "SysCursor", "versions": "0+"},
                                                            {"name": "Filter", "type": "[]SysOffsetRange", "versions": "0+"}]})
+    # chains of common structs in every listing order (upstream lists them top-down: the outer struct first, so that each
+    # refers FORWARD to one declared later), three and four deep, as array and as single references
+    def chain(prefix, order):
+        cs = {
+            "Group": {"name": f"{prefix}Group", "versions": "0+", "fields": [dict(anchor), {"name": "Shards", "type": f"[]{prefix}Shard", "versions": "0+"}]},
+            "Shard": {"name": f"{prefix}Shard", "versions": "0+", "fields": [dict(anchor), {"name": "Replicas", "type": f"[]{prefix}Replica", "versions": "0+"},
+                                                                             {"name": "Leader", "type": f"{prefix}Replica", "versions": "1+"}]},
+            "Replica": {"name": f"{prefix}Replica", "versions": "0+", "fields": [{"name": "BrokerId", "type": "int32", "versions": "0+"},
+                                                                                {"name": "LogEndOffset", "type": "int64", "versions": "0+", "default": "-1"},
+                                                                                {"name": "Dirs", "type": f"[]{prefix}Dir", "versions": "1+"}]},
+            "Dir": {"name": f"{prefix}Dir", "versions": "0+", "fields": [{"name": "Path", "type": "string", "versions": "0+"}]},
+        }
+        return [cs[k] for k in order]
+    for tag, order in (("TopDown", ["Group", "Shard", "Replica", "Dir"]), ("BottomUp", ["Dir", "Replica", "Shard", "Group"]),
+                       ("Mixed", ["Shard", "Dir", "Group", "Replica"])):
+        for ty in ("request", "response"):
+            defs.append({"apiKey": 2103 + ["TopDown", "BottomUp", "Mixed"].index(tag), "type": ty, "name": f"SysChain{tag}{ty.capitalize()}",
+                         "validVersions": "0-1", "flexibleVersions": "1+", "commonStructs": chain(f"C{tag}", order),
+                         "fields": [dict(anchor), {"name": "Groups", "type": f"[]C{tag}Group", "versions": "0+"}]})
     for ty in ("request", "response"):
         defs.append({"apiKey": 2102, "type": ty, "name": f"SysLateStart{ty.capitalize()}", "validVersions": "2-4", "flexibleVersions": "3+",
                      "fields": [dict(anchor), {"name": "Name", "type": "string", "versions": "0+"},
